@@ -6,12 +6,18 @@
      the requests of the begin flow; symmetrically term / unload / final;
    - C08_error_aborts: once a flow has failed nothing further is notified and the error is kept;
      C08_error_returned: the error an Insert returns is the error of a failed flow.
-   PARTIAL: "a symbol is activated only after every symbol it references" (correctness of the
-   Kahn-style ordering in [linked]) is not proved; it is evaluated by a Go oracle on the notifications
-   of every operation of every generated history (acyclic universes, responders that succeed or fail)
-   and the implementation's per-symbol notification sequences are compared with the model. *)
+   - C08_linked_sorted: for every table state whose references are acyclic and every start symbol, the list one
+     operation walks ([linked]: breadth-first in-degree count + Kahn's algorithm, with the model's fuel shown
+     sufficient) holds exactly the symbols that reach the start symbol through references, once each, and every
+     symbol in it comes after all the symbols of the list it refers to;
+     C08_load_dependencies_first / C08_unload_dependents_first: hence the load notifications of one load come
+     dependencies first, the unload notifications of one unload dependents first;
+     C08_ordered_part: without the acyclicity assumption the part Kahn's loop produced is still ordered; only the
+     remainder (symbols on or behind a reference cycle - the implementation appends them in map order) is not.
+   Besides the proofs a Go oracle evaluates the order on the notifications of every operation of every generated
+   history, and the implementation's per-symbol notification sequences are compared with the model. *)
 From Coq Require Import List NArith ZArith Bool.
-From Uf Require Import Table.Table Table.TableProofs.
+From Uf Require Import Table.Table Table.TableProofs Table.OrderProofs.
 Import ListNotations.
 
 Theorem C08_activation_wrapping : forall st s,
@@ -53,3 +59,40 @@ Example C08_ex :
   events (t_run ops) = [ELoad 0; ELoad 1; EExec 2 10; ELoad 2; ELoad 3; EExec 3 11] /\
   snd (t_step_res (t_run [TInsert r_init; TInsert r_begin_fails; TInsert src]) (TInsert tgt)) = TFail 3.
 Proof. vm_compute. split; reflexivity. Qed.
+
+Theorem C08_linked_sorted : forall st sb, acyclic st ->
+  dep_sorted st (linked st sb) /\ NoDup (ids (linked st sb)) /\ (forall i, In i (ids (linked st sb)) <-> reachable st sb i).
+Proof. exact linked_sorted. Qed.
+Print Assumptions C08_linked_sorted.
+
+Theorem C08_load_dependencies_first : forall st sb, acyclic st ->
+  exists l', subseq l' (linked st sb) /\
+    loads (events (fst (load st sb))) = loads (events st) ++ map s_inst l' /\ dep_sorted st l'.
+Proof. exact load_dependencies_first. Qed.
+Print Assumptions C08_load_dependencies_first.
+
+Theorem C08_unload_dependents_first : forall st sb, acyclic st ->
+  exists l', subseq l' (linked st sb) /\
+    unloads (events (fst (unload st sb))) = unloads (events st) ++ map s_inst (rev l') /\ dep_sorted st l'.
+Proof. exact unload_dependents_first. Qed.
+Print Assumptions C08_unload_dependents_first.
+
+Theorem C08_ordered_part : forall st sb,
+  exists out rest V, linked st sb = out ++ rest /\ (forall i, In i V <-> reachable st sb i) /\
+    forall pre v post, out = pre ++ v :: post -> pre = [] \/ allpreds st V (s_id v) pre.
+Proof. exact linked_ordered_part. Qed.
+Print Assumptions C08_ordered_part.
+
+(* non-vacuity: a diamond (top refers to a and b, both refer to base); the table is acyclic, the walk from base
+   is base, a, b, top, and inserting base last loads the four instances in that order *)
+Example C08_ex_order :
+  let base := mksym 0 1 0 None [] true [1; 2] [0] None in
+  let a := mksym 1 2 0 None [(1, [mkpref (Some 1) None 0])] true [1; 2] [0] None in
+  let b := mksym 2 3 0 None [(1, [mkpref (Some 1) None 0])] true [1; 2] [0] None in
+  let top := mksym 3 4 0 None [(1, [mkpref (Some 2) None 0]); (2, [mkpref (Some 3) None 0])] true [1; 2] [0] None in
+  let st := t_run [TInsert top; TInsert a; TInsert b; TInsert base] in
+  acyclic st /\ ids (linked st base) = [1; 2; 3; 4] /\ events st = [ELoad 0; ELoad 1; ELoad 2; ELoad 3].
+Proof.
+  cbv zeta. split; [apply (acyc_check_sound _ (fun i => i)); vm_compute; reflexivity|].
+  vm_compute. split; reflexivity.
+Qed.
